@@ -501,6 +501,49 @@ def gen_trailers():
     out += ["]", "", "end Nun.Gen", ""]
     return "\n".join(out)
 
+# the oplog-validity flag file (`is-oplog.valid`): what each of its writers / its reader does to the handle, in source order —
+# (0, n) = seek(SeekFrom::Start(n)), (1, b) = write(&[b]), (2, n) = read into an n-byte buffer — and whether the handle is opened inside the
+# function (fresh: position 0) or handed in (the replication thread's long-lived stream); plus the BufWriter capacity of the write handle
+FLAG_SITES = [("invalidate_oplog", r"pub fn invalidate_oplog\b[^{]*\{"), ("mark_op_log_as_invalid_on_disk", r"pub fn mark_op_log_as_invalid_on_disk\b[^{]*\{"),
+              ("mark_op_log_as_valid", r"fn mark_op_log_as_valid\b[^{]*\{"), ("is_oplog_valid", r"pub fn is_oplog_valid\b[^{]*\{")]
+
+def flag_io(name, hdr):
+    raw, b = fn_body("disk_ops.rs", hdr, f"flag-file site {name}")
+    steps = []
+    for m in re.finditer(r"\.\s*seek\s*\(\s*SeekFrom::(\w+)\s*\(\s*(-?\d+)\s*\)\s*\)|\.\s*write(?:_all)?\s*\(\s*&\s*\[([^\]]*)\]\s*\)|\.\s*read(?:_exact)?\s*\(\s*&mut\s+(\w+)\s*\)", b):
+        if m.group(1):
+            if m.group(1) != "Start": raise ExtractError(f"flag-file site {name}: seek relative to {m.group(1)} is not modelled")
+            steps.append((0, int(m.group(2))))
+        elif m.group(3) is not None:
+            bs = [x.strip() for x in m.group(3).split(",") if x.strip()]
+            if len(bs) != 1 or not bs[0].isdigit(): raise ExtractError(f"flag-file site {name}: write of {m.group(3)!r} is not a single literal byte")
+            steps.append((1, int(bs[0])))
+        else:
+            dm = re.search(r"let\s+mut\s+" + m.group(4) + r"\s*=\s*\[\s*(\d+)\s*;\s*(\d+)\s*\]", b)
+            if not dm: raise ExtractError(f"flag-file site {name}: buffer {m.group(4)} of the read not found")
+            steps.append((2, int(dm.group(2)))); steps.append((3, int(dm.group(1))))   # (3, d): the buffer's initial content
+    fresh = bool(re.search(r"get_invalidate_file_(write|read)_mode\s*\(\s*\)", b))
+    return steps, fresh
+
+def gen_flag():
+    out = ["namespace Nun.Gen", "",
+           "/-- (function, handle opened inside the function, steps): (0, n) seek to n from the start, (1, b) write the byte b, (2, n) read n bytes, (3, d) into a buffer pre-filled with d -/",
+           "def flagIo : List (List Nat × Bool × List (Nat × Nat)) := ["]
+    for ix, (name, hdr) in enumerate(FLAG_SITES):
+        steps, fresh = flag_io(name, hdr)
+        out.append(f"  -- {name}")
+        out.append(f"  ({bytes_lit(name)}, {'true' if fresh else 'false'}, [" + ", ".join(f"({a}, {b})" for a, b in steps) + "])" + ("," if ix + 1 < len(FLAG_SITES) else ""))
+    out.append("]")
+    raw, b = fn_body("disk_ops.rs", r"pub fn get_invalidate_file_write_mode\b[^{]*\{", "flag-file write handle")
+    m = re.search(r"BufWriter::with_capacity\s*\(\s*(\d+)\s*,", b)
+    if not m: raise ExtractError("flag-file write handle: BufWriter::with_capacity(<n>, …) not found")
+    flags = [k for k in ("create", "write", "append", "truncate", "create_new") if re.search(r"\.\s*" + k + r"\s*\(\s*true\s*\)", b)]
+    out += ["", "/-- capacity of the BufWriter around the write handle (a write of at least that many bytes goes straight to the file) -/",
+            f"def flagWriterCapacity : Nat := {m.group(1)}", "",
+            "/-- OpenOptions of the write handle that are switched on -/",
+            "def flagOpenOptions : List (List Nat) := [" + ", ".join(bytes_lit(k) for k in flags) + "]", "", "end Nun.Gen", ""]
+    return "\n".join(out)
+
 def write(name, text):
     os.makedirs(OUT, exist_ok=True)
     p = os.path.join(OUT, name)
@@ -510,7 +553,7 @@ def write(name, text):
 
 def main():
     errors = []
-    for name, fn in [("Lits.lean", gen_lits), ("Guards.lean", gen_guards), ("PanicSites.lean", gen_panic_sites), ("Atomic.lean", gen_atomic), ("Close.lean", gen_close), ("Notify.lean", gen_notify), ("Commands.lean", gen_commands), ("Trailers.lean", gen_trailers)]:
+    for name, fn in [("Lits.lean", gen_lits), ("Guards.lean", gen_guards), ("PanicSites.lean", gen_panic_sites), ("Atomic.lean", gen_atomic), ("Close.lean", gen_close), ("Notify.lean", gen_notify), ("Commands.lean", gen_commands), ("Trailers.lean", gen_trailers), ("Flag.lean", gen_flag)]:
         try:
             write(name, "-- GENERATED by extract/extract.py from /repo/src — do not edit\n" + fn())
         except ExtractError as e:
